@@ -18,6 +18,12 @@ theorem unLe_le (w n : Nat) (h : n < 256 ^ w) : unLe (le w n) = n := by
     simp only [le, unLe, ih _ h2, UInt8.toNat_ofNat']
     omega
 
+theorem bytes_take_app (a b : Bytes) (n : Nat) (h : a.length = n) : (a ++ b).take n = a := by
+  subst h; simp
+
+theorem bytes_drop_app (a b : Bytes) (n : Nat) (h : a.length = n) : (a ++ b).drop n = b := by
+  subst h; simp
+
 theorem readN_append (a rest : Bytes) : readN a.length (a ++ rest) = .ok (a, rest) := by
   simp [readN]
 
